@@ -37,8 +37,20 @@
 (*   st = "Run"    <-> ProcessState::Running                                *)
 (*   st = "Zombie" <-> Halted(Exited|Signaled) with state_has_changed set   *)
 (*   st = "Reaped" <-> Halted(..) with state_has_changed cleared            *)
-(* so the `changed` flag is st = "Zombie" (ChangedKids).  Stopped children *)
-(* and job control are outside the script shapes and are not modelled.     *)
+(* so the `changed` flag is st = "Zombie" (ChangedKids).                    *)
+(*                                                                         *)
+(* Stop / continue (POSIX XCU 2.9.1.1, 2.9.3, 2.9.4.3, 2.11; XSH wait):    *)
+(*   any live process may be stopped (SIGSTOP) and continued (SIGCONT) by  *)
+(*   another process; both raise SIGCHLD at the parent and set the child's *)
+(*   `state_has_changed` flag (nch) without terminating it.  The monitor   *)
+(*   option is off in every script shape (JobCtl = FALSE), so a shell      *)
+(*   waiting for ANY kind of foreground child - a pipeline member, a       *)
+(*   subshell `( )`, a command substitution - acknowledges such a          *)
+(*   notification and keeps waiting until the child has TERMINATED; `$?`   *)
+(*   is the child's exit status.  Only with job control may a stopped      *)
+(*   foreground job end the wait (not modelled).  The named wrong          *)
+(*   protocols `stop_is_finish` (pipeline members) and `fg_stop_is_finish` *)
+(*   (the other foreground children) take the stop for the end.            *)
 (*                                                                         *)
 (* The model is written as functions on a state record S (Kind, Apply,     *)
 (* DoCollect) so that Trace_Procs can compose the very same steps to       *)
@@ -48,7 +60,7 @@ EXTENDS Integers, Sequences, FiniteSets, TLC, Json
 
 CONSTANTS Variant,   \* "ok" | "enable_late" | "nonatomic_select" | "no_loop"
                      \*      | "wait_last_only" | "leak_writer" | "leak_reader"
-                     \*      | "unblock_no_sigchld" | "stop_is_finish"
+                     \*      | "unblock_no_sigchld" | "stop_is_finish" | "fg_stop_is_finish"
           Scripts,   \* set of script ids explored (see Script)
           MaxP       \* bound on the number of processes ever created
 
@@ -72,6 +84,8 @@ Em(dr)     == [k |-> "em", dr |-> dr]               \* emit 3000: writes more th
 Blk        == [k |-> "blk"]                         \* sink </tmp/fifo : blocks until killed
 Sig(g, v)  == [k |-> "kill", s |-> g, v |-> v]      \* kill -s TERM|STOP|CONT $pv
 Kill(v)    == Sig("TERM", v)
+Me(v)      == [k |-> "me", v |-> v]                 \* mypid pv  (assigns the own pid to pv; no fork)
+Clo        == [k |-> "clo"]                         \* exec >&-  (closes the own standard output)
 Pub        == [k |-> "pub"]                         \* mypid   (writes the own pid to stdout, a pipe)
 Get(v)     == [k |-> "get", v |-> v]                \* read pv (reads a pid from stdin, a pipe)
 Sub(b)     == [k |-> "sub", b |-> b]                \* ( b )
@@ -81,6 +95,19 @@ Pipe(cs)   == [k |-> "pipe", cs |-> cs]             \* { cs[1]; } | { cs[2]; } |
 Wt(ts)     == [k |-> "wait", ts |-> ts]             \* wait [$p_i | 999]...   (0 = unknown pid 999)
 
 S1(x) == <<St(x)>>
+
+\* A foreground child that is stopped and later continued by a background
+\* signaller (its own asynchronous child, which inherits p1 = the victim's
+\* pid) while the shell waits for it.  g = 1: `( status 0 )` between STOP and
+\* CONT, so that the waiting shell gets to see the stopped state; g = 0: STOP
+\* and CONT in immediate succession.
+SigBody(g) == <<Sig("STOP", 1)>> \o (IF g = 1 THEN <<Sub(S1(0))>> ELSE <<>>) \o <<Sig("CONT", 1)>>
+\* ... the victim waits for the signaller and then exits with status n
+VicW(n, g) == <<Me(1), Bg(SigBody(g), 0), Wt(<<>>), St(n)>>
+\* ... the victim blocks for ever; the signaller finally terminates it
+VicK(g)    == <<Me(1), Bg(SigBody(g) \o <<Sig("TERM", 1)>>, 0), Blk>>
+\* ... the victim is stopped while it waits for a foreground child of its own
+VicN(n, g) == <<Me(1), Bg(SigBody(g), 0), Sub(S1(4)), Pr(1), Wt(<<>>), St(n)>>
 
 \* Generated scripts: every sequence (of a given length) over these commands,
 \* each followed by a probe.  p1, p2 start as the unknown pid 999.
@@ -160,6 +187,21 @@ Script(id) ==
           [] id.f = "stop2"  -> <<Pipe(<< <<Pub, Blk>>,
                                           <<Get(1), Sig("STOP", 1), Sub(S1(a[1])), Sig("CONT", 1), Sig("TERM", 1)>> >>),
                                   Pr(1)>>
+          \* every kind of foreground child is stopped and continued while the shell
+          \* waits for it (no job control: the wait ends only when it has terminated)
+          [] id.f = "fsub"   -> <<Sub(VicW(a[1], a[2])), Pr(1)>>
+          [] id.f = "fsubk"  -> <<Sub(VicK(a[1])), Pr(1)>>
+          [] id.f = "fcs"    -> <<Cs(VicW(a[1], a[2])), Pr(1)>>
+          [] id.f = "fcsc"   -> <<Cs(<<Clo>> \o VicW(a[1], a[2])), Pr(1)>>
+          [] id.f = "fcsk"   -> <<Cs(<<Clo>> \o VicK(a[1])), Pr(1)>>
+          [] id.f = "fst1"   -> <<Pipe(<<VicW(a[1], a[2]), S1(a[3])>>), Pr(1)>>
+          [] id.f = "fst2"   -> <<Pipe(<<S1(a[3]), VicW(a[1], a[2])>>), Pr(1)>>
+          [] id.f = "fnest"  -> <<Sub(<<Sub(VicW(a[1], a[2])), Pr(1)>>), Pr(2)>>
+          [] id.f = "fbg"    -> <<Bg(<<Sub(VicW(a[1], a[2])), Pr(1)>>, 1), Wt(<<1>>), Pr(2)>>
+          [] id.f = "fpsub"  -> <<Pipe(<< <<Sub(VicW(a[1], a[2])), Pr(1)>>, S1(a[3]) >>), Pr(2)>>
+          [] id.f = "fpcs"   -> <<Pipe(<< S1(a[3]), <<Cs(<<Clo>> \o VicW(a[1], a[2])), Pr(1)>> >>), Pr(2)>>
+          [] id.f = "fcssub" -> <<Cs(<<Sub(VicW(a[1], a[2])), Pr(1)>>), Pr(2)>>
+          [] id.f = "fouter" -> <<Sub(VicN(a[1], a[2])), Pr(2)>>
           \* generated: GenAtoms[a[1]]; probe 1; GenAtoms[a[2]]; probe 2; ...
           [] id.f = "gen"    -> GenBody(a, 1)
   IN [id |-> id, pf |-> id.pf, body |-> body,
@@ -200,6 +242,25 @@ CatNegStop == Ids("stop1", {<<0>>}, {FALSE})
 CatSignals ==
   CatStop \cup  Ids("tk1", {<<0>>, <<1>>}, {FALSE}) \cup Ids("tk2", {<<0, 4>>, <<1, 4>>}, {FALSE})
   \cup Ids("tk3", {<<0, 3>>, <<1, 3>>}, {FALSE}) \cup Ids("tk4", {<<0>>, <<1>>}, {FALSE})
+G2 == {0, 1}
+\* quick tier: model-checked under every interleaving AND run on the real shell
+CatFgStopQ ==
+  Ids("fsub", {<<5, g>> : g \in G2}, {FALSE}) \cup Ids("fsubk", {<<1>>}, {FALSE})
+  \cup Ids("fcs", {<<6, 1>>}, {FALSE}) \cup Ids("fcsc", {<<6, 1>>}, {FALSE}) \cup Ids("fcsk", {<<1>>}, {FALSE})
+  \cup Ids("fcssub", {<<5, 1>>}, {FALSE})
+\* quick tier: only run on the real shell, every run validated against this
+\* module (the state constraint ModelChecked keeps TLC at their initial
+\* states, where the catalogue line is printed); thorough tier: model-checked too
+CatFgStopX ==
+  Ids("fnest", {<<5, 1>>}, {FALSE}) \cup Ids("fouter", {<<5, 1>>}, {FALSE}) \cup Ids("fbg", {<<5, 1>>}, {FALSE})
+  \cup Ids("fpsub", {<<5, 1, 0>>}, {FALSE}) \cup Ids("fpcs", {<<6, 1, 3>>}, {FALSE})
+CatFgStop ==
+  CatFgStopQ \cup CatFgStopX
+  \cup Ids("fst1", {<<3, 1, 0>>}, {FALSE}) \cup Ids("fst2", {<<4, 1, 3>>}, {FALSE})
+  \cup Ids("fcsc", {<<6, 0>>}, {FALSE}) \cup Ids("fouter", {<<5, 0>>}, {FALSE})
+  \cup Ids("fst1", {<<3, 1, 0>>}, {TRUE}) \cup Ids("fst2", {<<4, 1, 3>>}, {TRUE})
+  \cup Ids("fpsub", {<<5, 1, 0>>}, {TRUE})
+CatNegFgStop == Ids("fsub", {<<5, 1>>}, {FALSE})
 CatAll == CatSignals \cup CatPipes \cup CatSimple \cup CatAsync \cup CatNested \cup CatPipesEof \cup CatBigWriter
 CatBig ==
   Ids("pipe4", {<<3, 0, 4, 0>>}, B2) \cup Ids("bg3", {<<3, 4, 5>>}, {FALSE})
@@ -211,10 +272,11 @@ CatBig ==
 GenIx == 1 .. Len(GenAtoms)
 CatGen2 == Ids("gen", {<<i, j>> : i, j \in GenIx}, {TRUE})
 CatGen3 == Ids("gen", {<<i, j, k>> : i, j, k \in GenIx}, {TRUE})
-CatThorough == CatAll \cup CatBig \cup CatGen3
-CatQuick == CatAll \cup Ids("pipe4", {<<3, 0, 4, 0>>}, {TRUE}) \cup Ids("bg3", {<<3, 4, 5>>}, {FALSE})
+CatThorough == CatAll \cup CatFgStop \cup CatBig \cup CatGen3
+CatQuick == CatAll \cup CatFgStopQ \cup CatFgStopX \cup Ids("pipe4", {<<3, 0, 4, 0>>}, {TRUE}) \cup Ids("bg3", {<<3, 4, 5>>}, {FALSE})
             \cup Ids("bgsub", {<<3, 4, 5>>}, {FALSE}) \cup Ids("bgsink", {<<3, 4>>}, {TRUE})
             \cup CatGen2
+CatQuickMC == CatQuick \ CatFgStopX      \* the scripts the quick tier explores in the model
 \* scripts of the negative configurations (one is enough to exhibit each deviation)
 CatNegWait == Ids("sub", {<<5>>}, {FALSE}) \cup Ids("bgfg", {<<3, 4>>}, {FALSE})
 CatNegPipe == Ids("pipe2", {<<3, 4>>}, {FALSE})
@@ -242,6 +304,8 @@ TxtCmd(c) ==
     [] c.k = "blk"  -> "sink </tmp/fifo"
     [] c.k = "kill" -> "kill -s " \o c.s \o " $p" \o ToString(c.v)
     [] c.k = "pub"  -> "mypid"
+    [] c.k = "me"   -> "mypid p" \o ToString(c.v)
+    [] c.k = "clo"  -> "exec >&-"
     [] c.k = "get"  -> "read p" \o ToString(c.v)
     [] c.k = "sub"  -> "( " \o TxtBody(c.b) \o " )"
     [] c.k = "cs"   -> "x=$( " \o TxtBody(c.b) \o " )"
@@ -294,7 +358,7 @@ DenCmd(c, path, e) ==
        [] c.k = "wr" -> [none EXCEPT !.e.q = IF c.safe THEN 0 ELSE ANY]
        [] c.k = "em" -> [none EXCEPT !.e.q = IF c.dr THEN 0 ELSE NZ]
        [] c.k = "blk" -> [none EXCEPT !.e.q = KS]      \* never returns: the process is killed (scripts kill it)
-       [] c.k \in {"kill", "pub", "get"} -> [none EXCEPT !.e.q = 0]
+       [] c.k \in {"kill", "pub", "get", "me", "clo"} -> [none EXCEPT !.e.q = 0]
        [] c.k \in {"sub", "cs"} ->
             LET r == DenChild(c.b, Append(path, e.nf + 1), e)
             IN [e |-> [e EXCEPT !.q = r.xs, !.nf = @ + 1], pr |-> <<>>, procs |-> r.procs, gl |-> r.gl]
@@ -418,6 +482,9 @@ ChangedKids(T, p) == {c \in Kids(T, p) : T.st[c] = "Zombie"}     \* state_has_ch
 UnreapedKids(T, p) == {c \in Kids(T, p) : T.st[c] \in {"Run", "Zombie"}}
 Terminated(T)   == \A p \in Pids : T.st[p] # "Run"
 Foreground      == {"sub", "cs", "stage"}
+\* is process p a job-controlling shell?  No script shape turns the monitor
+\* option on, and a subshell never controls jobs.
+JobCtl(T, p)    == FALSE
 
 \* SIGCHLD raised at t: discarded without handler; otherwise pending until
 \* consumed by the sleeper (in the window of the non-atomic variant the
@@ -539,6 +606,8 @@ Apply(T, p, ch) ==
               THEN Adv(Raise([T EXCEPT !.stp[t] = FALSE, !.nch[t] = TRUE, !.q[p] = 0], T.par[t]), p)
               ELSE IF c.s = "TERM" /\ t \in Pids /\ T.st[t] = "Run" THEN Adv([T EXCEPT !.tp[t] = TRUE, !.q[p] = 0], p)
               ELSE Adv([T EXCEPT !.q[p] = 0], p)
+         [] c.k = "me" -> Adv([T EXCEPT !.q[p] = 0, !.vars[p] = [@ EXCEPT ![c.v] = p]], p)
+         [] c.k = "clo" -> Adv([T EXCEPT !.q[p] = 0, !.out[p] = 0], p)
          [] c.k = "pub" ->
               Adv([T EXCEPT !.q[p] = 0, !.msg = IF T.out[p] = 0 THEN @ ELSE [@ EXCEPT ![T.out[p]] = Append(@, p)]], p)
          [] c.k = "get" ->
@@ -595,9 +664,10 @@ Apply(T, p, ch) ==
       THEN (CASE T.st[h.c] = "Zombie" -> Cont(Reap(T, h.c), p, h.c, T.xs[h.c])
               [] T.st[h.c] = "Run" /\ T.nch[h.c] ->
                    \* wait reports that the child was stopped or continued: not a
-                   \* termination, a pipeline goes on waiting
-                   IF Cmd(T, p).k # "pipe" THEN [T EXCEPT !.err = "stopped child of a non-pipeline (not modelled)"]
-                   ELSE IF Variant = "stop_is_finish" /\ T.stp[h.c]
+                   \* termination.  Without job control the wait for a foreground
+                   \* child of any kind goes on (the notification is consumed)
+                   IF JobCtl(T, p) THEN [T EXCEPT !.err = "suspended foreground job (job control is not modelled)"]
+                   ELSE IF T.stp[h.c] /\ Variant = (IF Cmd(T, p).k = "pipe" THEN "stop_is_finish" ELSE "fg_stop_is_finish")
                    THEN Cont([T EXCEPT !.nch[h.c] = FALSE], p, h.c, KS)
                    ELSE [T EXCEPT !.nch[h.c] = FALSE, !.ph[p] = [h EXCEPT !.n = "en"]]
               [] T.st[h.c] = "Run" /\ ~T.nch[h.c] -> IF h.n = "pollx" THEN Cont(T, p, h.c, 1) ELSE sleep
@@ -647,6 +717,9 @@ VARIABLE S
 
 Init == \E id \in Scripts : S = InitS(Script(id))
 
+\* state constraint of the quick configuration (see CatFgStopX)
+ModelChecked == S.sid \notin CatFgStopX
+
 Step(p) ==
   /\ S.st[p] = "Run"
   /\ Kind(S, p) # "blocked"
@@ -656,7 +729,7 @@ Step(p) ==
 Is(p, tags) == S.st[p] = "Run" /\ Tag(S, p) \in tags
 
 \* one named action per kind of step (coverage is reported per action)
-ASimple(p)    == Is(p, {"st", "pipe", "wait"}) /\ Step(p)
+ASimple(p)    == Is(p, {"st", "pipe", "wait", "me", "clo"}) /\ Step(p)
 AProbe(p)     == Is(p, {"pr"}) /\ Step(p)
 ARead(p)      == Is(p, {"rd"}) /\ Step(p)
 AWrite(p)     == Is(p, {"wr"}) /\ Step(p)
@@ -748,6 +821,6 @@ Emit ==
   THEN LET sc == Script(S.sid)
            D == Den(sc)
        IN PrintT(ToJson([sid |-> S.sid, text |-> Text(sc), det |-> S.det, status |-> D.status,
-                         gl |-> D.gl, procs |-> D.procs]))
+                         gl |-> D.gl, procs |-> D.procs, px |-> S.sid \in CatFgStopX]))
   ELSE TRUE
 =============================================================================
